@@ -8,6 +8,7 @@ import (
 	"io"
 	"log"
 	"os"
+	"runtime/debug"
 	"sync"
 
 	"verif/harness/clid"
@@ -24,6 +25,9 @@ func cliCmd(args []string) int {
 	workers := fs.Int("workers", 8, "parallel cases")
 	fs.Parse(args)
 	log.SetOutput(io.Discard)
+	// a finalizer closing a connection the client leaked would hide the leak from the server side
+	debug.SetGCPercent(-1)
+	debug.SetMemoryLimit(3 << 30)
 	f, err := os.Open(*casesPath)
 	if err != nil {
 		fmt.Fprintln(os.Stderr, err)
